@@ -125,6 +125,16 @@ func (e cliEnv) run(args []string, stdin []byte, outfile bool, exts ...string) c
 		cmd.Env = []string{"HOME=" + e.dir, "TMPDIR=" + filepath.Join(e.dir, "tmp"), "PATH=/usr/bin:/bin", "LANG=C"}
 	case 2: // no usable place for a cache at all
 		cmd.Env = []string{"HOME=" + filepath.Join(e.dir, "no-such-dir", "deeper"), "XDG_CACHE_HOME=/dev/null/cache", "TMPDIR=" + filepath.Join(e.dir, "tmp"), "PATH=/usr/bin:/bin", "LANG=C.UTF-8"}
+	case 4: // a cache directory that can be made but is so deep that no entry file fits in a path (ENAMETOOLONG)
+		deep := e.dir
+		for len(deep)+len("/gts-cache/")+40 <= 4095 {
+			n := minInt(200, 4095-len("/gts-cache/")-30-len(deep)-1)
+			if n <= 0 {
+				break
+			}
+			deep += "/" + strings.Repeat("d", n)
+		}
+		cmd.Env = []string{"HOME=" + e.dir, "XDG_CACHE_HOME=" + deep, "TMPDIR=" + filepath.Join(e.dir, "tmp"), "PATH=/usr/bin:/bin", "LANG=C"}
 	case 3: // a cache directory given relative to the working directory, another locale
 		cmd.Env = []string{"HOME=" + e.dir, "XDG_CACHE_HOME=cache-rel", "TMPDIR=" + filepath.Join(e.dir, "tmp"), "PATH=/usr/bin:/bin", "LANG=de_DE.UTF-8", "LC_ALL=de_DE.UTF-8", "TZ=Pacific/Kiritimati"}
 	}
